@@ -23,8 +23,8 @@ PERM_SETS = {"quick": 24, "thorough": 12}
 CASES = {"quick": 1200 + PERM_SETS["quick"], "thorough": 12000 + PERM_SETS["thorough"]}
 FLOOR = {"quick": 1100, "thorough": 11000}
 FLOOR_COUNTERS = {
-    "quick": {"pointer_events": 20000, "gabriel_graphs_checked": 350, "permutation_fits": 24 * 120 + 1000, "periodic_fits": 300, "tie_free_relation_cases": 600, "refitted_estimators": 350, "other_length_units": 250, "small_length_units": 100, "cell_given_after_construction": 120},
-    "thorough": {"pointer_events": 250000, "gabriel_graphs_checked": 3500, "permutation_fits": 12 * 5040 + 10000, "periodic_fits": 3000, "tie_free_relation_cases": 6000, "refitted_estimators": 3500, "other_length_units": 2500, "small_length_units": 1000, "cell_given_after_construction": 1200},
+    "quick": {"pointer_events": 20000, "gabriel_graphs_checked": 350, "permutation_fits": 24 * 120 + 1000, "periodic_fits": 300, "tie_free_relation_cases": 600, "refitted_estimators": 350, "other_length_units": 250, "small_length_units": 100, "cell_given_after_construction": 120, "free_space_fits_next_to_a_periodic_bystander": 200},
+    "thorough": {"pointer_events": 250000, "gabriel_graphs_checked": 3500, "permutation_fits": 12 * 5040 + 10000, "periodic_fits": 3000, "tie_free_relation_cases": 6000, "refitted_estimators": 3500, "other_length_units": 2500, "small_length_units": 1000, "cell_given_after_construction": 1200, "free_space_fits_next_to_a_periodic_bystander": 2000},
 }
 RULE = (
     "case = point set (1-4 dimensions, 2-150 points [<= 60 in Gabriel mode]; generic / collinear / duplicated / lattice), "
@@ -86,6 +86,7 @@ def gen(rng, tier, index):
         if mode == "cutoff":
             case["cuts"] = case["cuts"] * unit**2
     case["unit"] = unit
+    case["bystander"] = bool(rng.random() < 0.4)
     case["cell_set"] = gens.pick(rng, ("ctor", "ctor", "set_params", "setattr", "decoy_then_set"))
     case["refit"] = bool(rng.random() < 0.4)  # the estimator is fitted again (other data in between)
     case["X_other"] = _points(rng, n, d, "generic") * unit
@@ -166,8 +167,14 @@ def _fit(case, X, w, cuts=None, record=None, graphs=None, est=None):
     if est is not None:
         q = est
     else:
+        if case.get("bystander") and case["cell"] is None:
+            # another estimator of the same class, built without metric_params and made periodic by writing into ITS
+            # dictionary in place, lives next to the judged one: instances do not share configuration
+            b = QuickShift(dist_cutoff_sq=np.full(4, 1.0)) if case["mode"] == "cutoff" else QuickShift(gabriel_shell=1)
+            b.metric_params["cell_length"] = np.full(X.shape[1], 0.9 * float(np.abs(X).max() or 1.0))
+            b.fit(np.random.default_rng(len(X)).normal(size=(4, X.shape[1])) * float(np.abs(X).max() or 1.0), samples_weight=np.arange(4.0))
         late = case.get("cell_set", "ctor")  # the periodic cell given to the constructor, or to the object afterwards
-        mp0 = mp if late == "ctor" else None
+        mp0 = (mp if case["cell"] is not None else None) if late == "ctor" else None  # free space: the constructor default
         if case["mode"] == "cutoff":
             q = QuickShift(dist_cutoff_sq=np.array(case["cuts"] if cuts is None else cuts, copy=True), scale=case["scale"], metric_params=mp0)
         else:
@@ -228,6 +235,8 @@ def run(case, j):
     ta = 1e-12 * max(float((X**2).sum(axis=1).max()), 1e-300) if cell is None else 1e-12 * float((cell**2).sum())
     record, graphs = [], []
     q = j.lib("fit", _fit, case, X, w, None, record, graphs)
+    if case.get("bystander") and cell is None:
+        j.note("free_space_fits_next_to_a_periodic_bystander")
     if cell is not None:
         j.note("periodic_fits")
         if case.get("cell_set", "ctor") != "ctor":
